@@ -377,6 +377,9 @@ def main(pid="C10"):
         rep.assume("dyadic refill rates on a 4 s grid, so the implementation's float arithmetic is exact and equals the rational model")
         rep.assume("virtual clock replaces time.monotonic as seen by nauyaca.server.middleware and the event loop's time()")
         rep.set("exhaustive", False)
+        # "as configured ... through to the running server": the command line front end (spec/Assembly.tla)
+        from checks import assembly
+        assembly.main("C10", rep=rep, finish=False)
         sys.exit(rep.finish())
     except tlc.TLCError as e:
         evidence.machinery_failure(pid, e)
